@@ -457,3 +457,37 @@ class PdoStartSetUpdate(Contract):
                    task_sends(s, live[0], p["cob"], [S.byte(p["new"], 0), S.byte(p["new"], 1)], p["period"]))
 
     ensures = {"payload-current-after-in-place-change": lambda s: PdoStartSetUpdate.ok(s)}
+
+
+@contract
+class HeartbeatAtBootUp(Contract):
+    """leaving INITIALISING for PRE-OPERATIONAL (local command 128) starts the heartbeat with the period the heartbeat
+    time object 0x1017 holds NOW (whatever was cached from earlier writes): none for 0, else exactly one task with
+    0x700 + id, the new state and that period; an earlier task does not keep running"""
+    target = "canopen.nmt:NmtSlave.send_command"
+    id = "HeartbeatAtBootUp"
+    functions = ("canopen.nmt:NmtSlave.start_heartbeat", "canopen.nmt:NmtSlave.stop_heartbeat")
+    props = ("C17",)
+    cases = {"fresh": False, "earlier-task-running": True}
+
+    def setup(self, w, case):
+        net = mk_net(w)
+        sl = mk_slave(w, net, case)
+        w.setfield(sl, "_state", 0)
+        w.setfield(sl, "_heartbeat_time_ms", w.int("cached_ms", 0, 65535))       # what on_write saw last, possibly stale
+        hb = w.int("od_1017", 0, 65535)
+        node = w.obj("env.stubs:NodeStub", id=w.pre["nid"], sdo=w.dict({0x1017: w.obj("env.stubs:RawVar", od=None, value=hb)}))
+        w.setfield(sl, "_local_node", node)
+        w.pre.update(hb=hb)
+        return Call(("method", sl, "send_command"), [128])
+
+    @staticmethod
+    def ok(s):
+        p = s.pre
+        live = live_after(s, [p["t0"]] if p["t0"] is not None else [])
+        if bool(compare("==", p["hb"], 0)):
+            return And(s.returned, len(live) == 0)
+        return And(s.returned, len(live) == 1,
+                   task_sends(s, live[0], binop("+", 0x700, p["nid"]), [127], Opaque("ratio", (p["hb"], 1000))))
+
+    ensures = {"period-of-object-1017-now": lambda s: HeartbeatAtBootUp.ok(s)}
